@@ -170,7 +170,10 @@ Definition op_step (s : state) (t : tid) (fault : bool) : option state :=
       if fault then Some (set_pc s t (Unlock None))
       else Some (set_pc (set_slot s c (Slot None (s_key sl))) t (Unlock None))
   | Unlock res =>
-      if fault then None
+      (* a failed Unlock is logged and otherwise ignored: the thread goes on, the lock stays
+         (until the Locker's staleness rule hands it on, which is not modelled) *)
+      if fault
+      then Some (set_pc s t (match res with Some m => Order m (t_att th) | None => Done None end))
       else Some (set_pc (set_lock s None) t
                         (match res with Some m => Order m (t_att th) | None => Done None end))
   | Order m i =>
@@ -206,9 +209,10 @@ Definition op_step (s : state) (t : tid) (fault : bool) : option state :=
       if fault then Some (set_pc s t (DUnlock false))
       else Some (set_pc (inc_deletes (set_slot s c (Slot (s_reg sl) None)) c) t (DUnlock true))
   | DUnlock ok =>
-      if fault then None
-      else if ok then Some (set_pc (set_att (set_lock s None) t 1) t (LoadReg false))
-           else Some (set_pc (set_lock s None) t (Done None))
+      if fault
+      then (if ok then Some (set_pc (set_att s t 1) t (LoadReg false)) else Some (set_pc s t (Done None)))
+      else (if ok then Some (set_pc (set_att (set_lock s None) t 1) t (LoadReg false))
+            else Some (set_pc (set_lock s None) t (Done None)))
   end.
 
 (** a crash inside the register..save window is counted; a lock held by the crashed thread is
@@ -246,6 +250,19 @@ Fixpoint run (s : state) (ls : list label) : option state :=
   end.
 
 Definition reachable (s : state) : Prop := exists ls, run init ls = Some s.
+
+(** an Unlock that fails (the lock stays held although its holder has left the locked region) *)
+Definition unlock_fault (s : state) (l : label) : bool :=
+  match l with
+  | Op t true => match t_pc (thr s t) with Unlock _ | DUnlock _ => true | _ => false end
+  | _ => false
+  end.
+Fixpoint unlock_faults (s : state) (ls : list label) : nat :=
+  match ls with
+  | [] => 0
+  | l :: r => (if unlock_fault s l then 1 else 0) +
+              match step s l with Some s' => unlock_faults s' r | None => 0 end
+  end.
 
 (** sequential schedules: a thread takes steps only while every other thread is idle or
     finished (one doIssue at a time; restarts, faults, crashes and resets allowed) *)
